@@ -115,6 +115,39 @@ def s_fx_abs(ex, st, args, m):
     return fork_overflow(ex, st, "(abs %s)" % a.term, a.signed, a.bits, "fixed-point abs overflow", lambda t: Fx(t, a.signed, a.bits, a.frac))
 
 
+def s_fx_round_like(kind):
+    def f(ex, st, args, m):
+        a = ex.deref(st, args[0])
+        one = 1 << a.frac
+        if kind == "floor":
+            q, _r = ex.ctx.floordiv_const(a.term, one)
+            exact = "(* %s %d)" % (q, one)
+        elif kind == "ceil":
+            q, _r = ex.ctx.floordiv_const("(+ %s %d)" % (a.term, one - 1), one)
+            exact = "(* %s %d)" % (q, one)
+        else:  # round: nearest, ties away from zero
+            q, _r = ex.ctx.floordiv_const("(+ (abs %s) %d)" % (a.term, one // 2), one)
+            exact = "(ite (< %s 0) (- (* %s %d)) (* %s %d))" % (a.term, q, one, q, one)
+        return fork_overflow(ex, st, exact, a.signed, a.bits, "fixed-point %s overflow" % kind, lambda t: Fx(t, a.signed, a.bits, a.frac))
+    return f
+
+
+def s_fx_sat_wrap(op, mode):
+    def f(ex, st, args, m):
+        a, b = ex.deref(st, args[0]), ex.deref(st, args[1])
+        exact = "(%s %s %s)" % ("+" if op == "add" else "-", a.term, b.term)
+        lo, hi = rng(a.signed, a.bits)
+        if mode == "saturating":
+            t = "(ite (< %s %s) %s (ite (> %s %s) %s %s))" % (exact, lit(lo), lit(lo), exact, lit(hi), lit(hi), exact)
+            return [(st, Fx(t, a.signed, a.bits, a.frac), None)]
+        if mode == "checked":
+            return [(st, Opt(in_range(exact, a.signed, a.bits), Fx(exact, a.signed, a.bits, a.frac)), None)]
+        # wrapping
+        q, r = ex.ctx.floordiv_const("(- %s %s)" % (exact, lit(lo)), 1 << a.bits)
+        return [(st, Fx("(+ %s %s)" % (r, lit(lo)), a.signed, a.bits, a.frac), None)]
+    return f
+
+
 def s_fx_unsigned_abs(ex, st, args, m):
     a = ex.deref(st, args[0])
     return [(st, Fx("(abs %s)" % a.term, False, a.bits, a.frac), None)]
@@ -255,6 +288,15 @@ SUMMARIES = [
     (r"^<" + FXT + r" as Neg>::neg$", s_fx_neg),
     (r"^" + FXT + r"::abs$", s_fx_abs),
     (r"^" + FXT + r"::unsigned_abs$", s_fx_unsigned_abs),
+    (r"^" + FXT + r"::round$", s_fx_round_like("round")),
+    (r"^" + FXT + r"::floor$", s_fx_round_like("floor")),
+    (r"^" + FXT + r"::ceil$", s_fx_round_like("ceil")),
+    (r"^" + FXT + r"::saturating_add$", s_fx_sat_wrap("add", "saturating")),
+    (r"^" + FXT + r"::saturating_sub$", s_fx_sat_wrap("sub", "saturating")),
+    (r"^" + FXT + r"::wrapping_add$", s_fx_sat_wrap("add", "wrapping")),
+    (r"^" + FXT + r"::wrapping_sub$", s_fx_sat_wrap("sub", "wrapping")),
+    (r"^" + FXT + r"::checked_add$", s_fx_sat_wrap("add", "checked")),
+    (r"^" + FXT + r"::checked_sub$", s_fx_sat_wrap("sub", "checked")),
     (r"^" + FXT + r"::is_negative$", s_fx_is_negative),
     (r"^" + FXT + r"::to_bits$", s_fx_to_bits),
     (r"^" + FXT + r"::from_bits$", s_fx_from_bits),
